@@ -214,6 +214,31 @@ def s_iter_next(I, w, frame, site, fn, args, term):
     return out
 
 
+def s_array_into_iter(I, w, frame, site, fn, args, term):
+    # `for x in [a, b, c]`: the array is moved into an iterator that hands its elements out by value, in order
+    a = args[0]
+    if a[0] != 'arr' or a[2][0] != 'elems' or len(a[2][1]) != a[1]:
+        return None
+    root = ('O', Obj.fresh())
+    ety = term['arg_tys'][0]['of'] if term.get('arg_tys') and term['arg_tys'][0].get('k') == 'array' else None
+    w.mem[root] = ('seq', Lin.c(a[1]), reg_ty(ety) if ety else None, tuple((Lin.c(i), v) for i, v in enumerate(a[2][1])), ('array-into-iter', root[1]), Lin.c(a[1]))
+    return [(w, ('iter', Loc(root), Lin.c(0), Lin.c(a[1]), 'by-value'))]
+
+
+def s_array_iter_next(I, w, frame, site, fn, args, term):
+    r = args[0]
+    if r[0] != 'ref':
+        return None
+    it = I.read(w, r[1])
+    if it[0] != 'iter' or len(it) < 5 or not it[2].is_const() or not it[3].is_const():
+        return None
+    if it[2].const >= it[3].const:
+        return [(w, ('enum', ((0, ()),)))]
+    v = I.read(w, it[1].ext(('i', it[2])))
+    I.write(w, r[1], ('iter', it[1], it[2] + 1, it[3], 'by-value'))
+    return [(w, ('enum', ((1, (v,)),)))]
+
+
 def s_range_next(I, w, frame, site, fn, args, term):
     r = args[0]
     if r[0] != 'ref':
@@ -244,6 +269,25 @@ def s_unit(I, w, frame, site, fn, args, term):
 
 def s_fold(I, w, frame, site, fn, args, term):
     dty = term['dest_ty']
+    it = args[0]
+    if it[0] == 'iter' and it[2].is_const() and it[3].is_const() and 0 <= it[3].const - it[2].const <= 8 and len(args) == 3:
+        clo = args[2]
+        cty = term['arg_tys'][2] if len(term.get('arg_tys', [])) > 2 else None
+        body = I.facts.bodies.get(cty.get('name')) if cty and cty.get('k') == 'closure' else None
+        if body is not None:
+            worlds = [(w, args[1])]
+            for i in range(it[2].const, it[3].const):
+                nxt = []
+                for (wi, acc) in worlds:
+                    elem = ('ref', it[1].ext(('i', Lin.c(i))))
+                    for (wo, rv) in I.call_closure(wi, frame, site[1], site, body, [clo, ('agg', (acc, elem))]):
+                        nxt.append((wo, rv))
+                worlds = nxt
+                if len(worlds) > 16:
+                    worlds = None
+                    break
+            if worlds is not None:
+                return worlds
     if dty['k'] == 'int':
         a = ATOMS.fresh('fold', *AI.int_range(dty), defn=('fold', tuple(args)))
         I.loop_atoms.add(a)        # a quantity accumulated over a list, like a loop-carried sum (see decline_loop_obligations_in)
@@ -302,7 +346,7 @@ def s_try_into(I, w, frame, site, fn, args, term):
     if len(targs) < 2:
         return None
     T, U = targs[0], targs[1]
-    if U['k'] == 'array' and a[0] == 'slice':
+    if U['k'] == 'array' and a[0] == 'slice' and U.get('len') is not None:
         n = U['len']
         okv = ('enum', ((0, (('arr', n, ('bytes_of', a[1], a[2])),)),))
         errv = ('enum', ((1, (('top', None, 'TryFromSliceError', 'e'),)),))
@@ -326,6 +370,16 @@ def s_try_into(I, w, frame, site, fn, args, term):
             w2 = w.fork()
             out.append((w2, ('enum', ((1, (('top', None, 'TryFromIntError', 'e'),)),))))
         return out
+    return None
+
+
+def s_try_from(I, w, frame, site, fn, args, term):
+    # <[T; N] as TryFrom<&[T]>>::try_from(slice): the same conversion as slice.try_into(), target taken from the result type
+    dty = term['dest_ty']
+    if dty.get('k') == 'adt' and dty.get('args') and dty['args'][0].get('k') in ('array', 'int'):
+        fn2 = dict(fn)
+        fn2['targs'] = [term['arg_tys'][0] if term.get('arg_tys') else {'k': '?'}, dty['args'][0]]
+        return s_try_into(I, w, frame, site, fn2, args, term)
     return None
 
 
@@ -737,11 +791,15 @@ TABLE = {
     '<I as std::iter::IntoIterator>::into_iter': s_identity,
     '<std::slice::Iter as std::iter::Iterator>::next': s_iter_next,
     'std::iter::range::next': s_range_next,
+    'std::array::iter::into_iter': s_array_into_iter,
+    '<std::array::IntoIter as std::iter::Iterator>::next': s_array_iter_next,
     '<std::slice::Iter as std::iter::Iterator>::fold': s_fold,
     'core::num::from_be_bytes': s_from_be_bytes,
     'core::num::to_be_bytes': s_to_be_bytes,
     'core::num::from_be': s_identity,
     '<T as std::convert::TryInto>::try_into': s_try_into,
+    'std::array::try_from': s_try_from,
+    'core::array::try_from': s_try_from,
     '<T as std::convert::Into>::into': s_into,
     'std::option::Option::unwrap': s_unwrap,
     'std::result::Result::unwrap': s_unwrap,
